@@ -3,11 +3,14 @@
 package main
 
 import (
+	"encoding/json"
 	"flag"
 	"fmt"
 	"os"
+	"os/exec"
 	"path/filepath"
 	"runtime/debug"
+	"sort"
 	"strconv"
 	"strings"
 	"sync"
@@ -151,6 +154,16 @@ func runCheck(id, tier string) int {
 				stale++
 			}
 		}
+		for _, r := range runSeeded(p) {
+			total++
+			lines = append(lines, r.line)
+			switch r.status {
+			case "caught":
+				ok++
+			case "stale":
+				stale++
+			}
+		}
 		extra["positive_controls"] = map[string]any{"total": total, "caught": ok, "stale": stale, "results": lines}
 		if ok != total {
 			c.Undecided("positive-controls", "selftest", 0, fmt.Sprintf("%d of %d positive controls were not caught (see coverage.positive_controls)", total-ok, total))
@@ -180,6 +193,104 @@ func runCheck(id, tier string) int {
 }
 
 type mutantResult struct{ status, line string }
+
+// runSeeded replays the seeded changes kept under /verif/seeded (written by independent
+// authors, confirmed to break the property while passing the test suite) that this
+// property's check is recorded to catch: each patch is applied to copies of the files it
+// touches and loaded through the overlay; the check must report a violation.
+func runSeeded(p *props.Property) []mutantResult {
+	dirs, _ := filepath.Glob(filepath.Join(core.VerifDir(), "seeded", "*", "meta.json"))
+	sort.Strings(dirs)
+	var out []mutantResult
+	for _, mf := range dirs {
+		b, err := os.ReadFile(mf)
+		if err != nil {
+			continue
+		}
+		var meta struct {
+			Seed      string `json:"seed"`
+			Detection struct {
+				CaughtBy []string `json:"caught_by"`
+			} `json:"detection"`
+		}
+		if json.Unmarshal(b, &meta) != nil {
+			continue
+		}
+		mine := false
+		for _, c := range meta.Detection.CaughtBy {
+			if c == p.ID {
+				mine = true
+			}
+		}
+		if !mine {
+			continue
+		}
+		name := "seeded/" + meta.Seed
+		overlay, err := patchOverlay(filepath.Join(filepath.Dir(mf), "patch.diff"))
+		if err != nil {
+			out = append(out, mutantResult{"stale", fmt.Sprintf("%s: STALE control (%v)", name, err)})
+			continue
+		}
+		_, res, err := analyse(p, "quick", overlay)
+		switch {
+		case err != nil:
+			out = append(out, mutantResult{"error", fmt.Sprintf("%s: ERROR does not load: %s", name, firstLine(err.Error()))})
+		case len(res.Violations) > 0:
+			out = append(out, mutantResult{"caught", fmt.Sprintf("%s: caught by %s @ %s", name, res.Violations[0].Rule, res.Violations[0].Site)})
+		default:
+			out = append(out, mutantResult{"missed", fmt.Sprintf("%s: MISSED (no rule fired)", name)})
+		}
+	}
+	return out
+}
+
+// patchOverlay applies a unified diff to copies of the repository files it touches.
+func patchOverlay(patch string) (map[string][]byte, error) {
+	data, err := os.ReadFile(patch)
+	if err != nil {
+		return nil, err
+	}
+	var files []string
+	for _, l := range strings.Split(string(data), "\n") {
+		if strings.HasPrefix(l, "+++ b/") {
+			files = append(files, strings.TrimSpace(strings.TrimPrefix(l, "+++ b/")))
+		}
+	}
+	if len(files) == 0 {
+		return nil, fmt.Errorf("no files in patch")
+	}
+	tmp, err := os.MkdirTemp("", "shverif-seed")
+	if err != nil {
+		return nil, err
+	}
+	defer os.RemoveAll(tmp)
+	for _, f := range files {
+		src, err := os.ReadFile(filepath.Join(core.RepoDir(), f))
+		if err != nil {
+			return nil, fmt.Errorf("file %s of the patch no longer exists", f)
+		}
+		if err := os.MkdirAll(filepath.Dir(filepath.Join(tmp, f)), 0o755); err != nil {
+			return nil, err
+		}
+		if err := os.WriteFile(filepath.Join(tmp, f), src, 0o644); err != nil {
+			return nil, err
+		}
+	}
+	cmd := exec.Command("git", "apply", "--whitespace=nowarn", patch)
+	cmd.Dir = tmp
+	if outb, err := cmd.CombinedOutput(); err != nil {
+		return nil, fmt.Errorf("patch no longer applies: %s", firstLine(string(outb)))
+	}
+	overlay := map[string][]byte{}
+	for _, f := range files {
+		b, err := os.ReadFile(filepath.Join(tmp, f))
+		if err != nil {
+			return nil, err
+		}
+		overlay[filepath.Join(core.RepoDir(), f)] = b
+	}
+	return overlay, nil
+}
 
 // runMutants runs the positive controls of a property, a few at a time (each holds a
 // whole loaded program in memory).
@@ -264,7 +375,7 @@ func selftest(id string, verbose bool) bool {
 		fmt.Printf("%s selftest: clean tree is NOT silent (%d violations)\n", id, len(res.Violations))
 		ok = false
 	}
-	for _, r := range runMutants(p) {
+	for _, r := range append(runMutants(p), runSeeded(p)...) {
 		fmt.Printf("%s selftest: %s\n", id, r.line)
 		if r.status != "caught" {
 			ok = false
